@@ -269,12 +269,34 @@ def purity_probes(fn, rnd, tier, fns):
 
 # ---------------------------------------------------------------- hidden reads through natives
 USER = 'get_object(ApiUser, "sbu")'
+LSN = 'get_object(ApiListener, "sbapi")'
+# NOTE: a dictionary literal `{ u = <object> }` is an assignment and is refused in a sandbox, so containers that hold the objects
+# are part of the fixture (harness: SbSecD, SbSecA, SbSecNest, SbSecRefs - dictionaries / arrays / nested ones holding the ApiUser,
+# the ApiListener and references to their hidden fields)
 SECRET_ARGS = [('ApiUser', USER), ('Reference', '(&%s.password)' % USER), ('Array', '[ %s ]' % USER),
-               ('Dictionary', '{ u = %s }' % USER), ('Array', '[ &%s.password ]' % USER), ('Array', 'get_objects(ApiUser)'),
+               ('Array', '[ &%s.password ]' % USER), ('Array', 'get_objects(ApiUser)'),
                ('Reference', '(&%s.password_hash)' % USER),
-               ('ApiListener', 'get_object(ApiListener, "sbapi")'), ('Reference', '(&get_object(ApiListener, "sbapi").ticket_salt)'),
-               ('Array', '[ &get_object(ApiListener, "sbapi").ticket_salt, get_object(ApiListener, "sbapi") ]')]
+               ('ApiListener', LSN), ('Reference', '(&%s.ticket_salt)' % LSN),
+               ('Array', '[ &%s.ticket_salt, %s ]' % (LSN, LSN)), ('Array', 'get_objects(ApiListener)'),
+               ('Array', '[ [ %s ], [ [ %s ] ] ]' % (USER, LSN)),
+               ('Dictionary', 'SbSecD'), ('Array', 'SbSecA'), ('Dictionary', 'SbSecNest'), ('Dictionary', 'SbSecRefs'),
+               ('Array', 'SbSecNest.a.b'), ('Array', 'SbSecD.values()'), ('Array', '[ SbSecD, SbSecA ]')]
 SECRET_PAT = '"*sbS*"'          # matches the password (sbSECRETpw) and the ticket salt field (sbSALTfld)
+
+
+# (mode, template over the call %C, truth of the result means a leak)
+SECOND_STAGE = [
+    ('console', '%C', 0), ('console', 'Json.encode(%C)', 0), ('filter', 'match(%P, Json.encode(%C))', 1),
+    ('rot', '(%C) in [ "sbSECRETpw", "sbSALTfld" ]', 1),
+    ('console', 'string(%C)', 0), ('console', '(%C).to_string()', 0), ('console', 'Json.encode([ %C ])', 0),
+    ('console', 'Json.decode(Json.encode(%C))', 0), ('filter', 'match(%P, string(%C))', 1),
+    ('filter', 'match(%P, Json.encode(Json.decode(Json.encode(%C))))', 1),
+    ('console', 'Json.encode(keys(%C))', 0), ('console', '(%C).values()', 0), ('console', '(%C).clone()', 0),
+    ('console', 'Json.encode((%C).shallow_clone())', 0), ('console', '[ %C ].map(Json.encode)', 0),
+    ('console', '[ %C ].map(string).join(",")', 0), ('console', 'typeof(%C)', 0),
+    ('rot', 'Json.decode(Json.encode(%C)).password == "sbSECRETpw" || Json.decode(Json.encode(%C)).ticket_salt == "sbSALTfld"', 1),
+    ('filter', '"sbSECRETpw" in (%C) || "sbSALTfld" in (%C)', 1),
+]
 
 
 def hidden_native_probes(fn, rnd, tier, fns):
@@ -317,15 +339,13 @@ def hidden_native_probes(fn, rnd, tier, fns):
         if call in seen:
             continue
         seen.add(call)
-        form = (i + rnd.randrange(4)) % 4 if tier == 'quick' else -1
-        if form in (0, -1):
-            out.append(('console', call, desc, 0))
-        if form in (1, -1):
-            out.append(('console', 'Json.encode(%s)' % call, desc, 0))
-        if form in (2, -1):
-            out.append(('filter', 'match(%s, Json.encode(%s))' % (SECRET_PAT, call), desc, 1))
-        if form in (3, -1):
-            out.append((('event', 'filter', 'inbox')[i % 3], '(%s) in [ "sbSECRETpw", "sbSALTfld" ]' % call, desc, 1))
+        # what comes back is handed back raw, or fed to a SECOND native that serialises / stringifies / walks it
+        form = (i + rnd.randrange(len(SECOND_STAGE))) % len(SECOND_STAGE) if tier == 'quick' else -1
+        for k_, (mode, tmpl, leak) in enumerate(SECOND_STAGE):
+            if form in (k_, -1):
+                if mode == 'rot':
+                    mode = ('event', 'filter', 'inbox')[i % 3]
+                out.append((mode, tmpl.replace('%P', SECRET_PAT).replace('%C', call), desc, leak))
     return out
 
 
@@ -638,10 +658,29 @@ def _generate(seed, tier):
             for mode in ('filter', 'event'):
                 k += 1
                 lines.append(probe(k, mode, 0, '%s.%s == "%s"' % (ox, h['field'], secret), desc, leak=1))
+            oxs = 'get_objects(%s)' % h['type']
             for code in ('(&%s.%s).get()' % (ox, h['field']), '*(&%s.%s)' % (ox, h['field']), 'Json.encode(%s)' % ox, 'string(%s)' % ox,
-                         '%s.to_string()' % ox, 'keys(%s)' % ox, '%s.clone()' % ox):
+                         '%s.to_string()' % ox, 'keys(%s)' % ox, '%s.clone()' % ox,
+                         # serialisers / stringifiers as readers: the object nested in containers, results fed to a second native
+                         'Json.encode([ %s ])' % ox, 'Json.encode([ [ %s ] ])' % ox, 'Json.encode(%s)' % oxs, 'string([ %s ])' % ox,
+                         '[ %s ].to_string()' % ox, '[ %s ].join(",")' % ox, '%s.map(Json.encode)' % oxs, '%s.map(string)' % oxs,
+                         '%s.map(typeof)' % oxs, 'Json.decode(Json.encode(%s))' % ox, 'Json.decode(Json.encode(%s)).%s' % (ox, h['field']),
+                         'Json.encode(%s.clone())' % ox, 'Json.encode(%s.shallow_clone())' % oxs, 'Json.encode(SbSecD)', 'Json.encode(SbSecA)',
+                         'Json.encode(SbSecNest)', 'Json.encode(SbSecRefs)', 'SbSecD.values()', 'SbSecD.to_string()', 'string(SbSecNest)',
+                         'Json.encode(SbSecD.values())', 'Json.encode(SbSecD.shallow_clone())', 'SbSecA.map(Json.encode)',
+                         'Json.encode(union(SbSecA, [ %s ]))' % ox, 'Json.encode(intersection(%s, %s))' % (oxs, oxs),
+                         'Json.encode(SbSecRefs.r.get())', 'SbSecRefs.a.map(r => r)'.replace('r => r', 'string'),
+                         'Json.encode(%s.__name)' % ox, 'parse_performance_data(Json.encode(%s))' % ox):
                 k += 1
                 lines.append(probe(k, 'console', 0, code, desc))
+            secret_q = '"%s"' % secret
+            for code in ('match("*%s*", Json.encode(%s))' % (secret[:5], ox), 'match("*%s*", Json.encode(%s))' % (secret[:5], oxs),
+                         'match("*%s*", string([ %s ]))' % (secret[:5], ox), 'Json.decode(Json.encode(%s)).%s == %s' % (ox, h['field'], secret_q),
+                         'match("*%s*", Json.encode(SbSecD))' % secret[:5], 'match("*%s*", Json.encode(SbSecNest))' % secret[:5],
+                         '%s in SbSecD.values()' % secret_q, 'match("*%s*", %s.map(Json.encode).join(","))' % (secret[:5], oxs)):
+                for mode in ('filter', 'event'):
+                    k += 1
+                    lines.append(probe(k, mode, 0, code, desc, leak=1))
     for j in range(0, len(lines), 25):
         add(lines[j:j + 25], 'hidden-field')
     # 4b. the same fields as BARE identifiers resolved through `using <live object>` (VMOps::FindVarImport)
